@@ -767,6 +767,54 @@ theorem C20_mask_pinned_output_counterexample :
     mhaSpec id eQ mhaWitness [1] [[1], [2]] [[1], [5]] (some [true, true]) = [612 / 77] := by
   decide +kernel
 
+/-! ## Block-by-block accumulation; the whole sequence as the mixture of its consecutive blocks -/
+section Blocks
+variable {κ : Type} [Field κ]
+
+/-- **C20_chunked**: accumulating the weighted sum over consecutive blocks of the sequence by a left fold
+(`out = 0; for blk: out += (a[blk] * value[blk]).sum(dim)`) gives `forward`'s one-shot sum, for EVERY list of
+block lengths `ns` (lengths may be 0, need not divide `T`, may stop short of `T` — the remainder is one more
+block — or overshoot), every length `T`, flavour, mask and `e`. -/
+theorem C20_chunked (th e : κ → κ) (fl : Flavour κ) (D : Nat) (ns : List Nat) (q : List κ)
+    (ks vs : List (List κ)) (mask : Option (List Bool)) (_hk : true ∈ effMask mask ks.length) :
+    attendChunked th e fl D ns q ks vs mask = attend th e fl D q ks vs mask := by
+  unfold attendChunked attend
+  exact List.map_congr_left (fun d _ => wsumChunked_eq ns _ vs d)
+
+/-- **C20_chunked_any_order**: ... and in whatever ORDER the blocks are visited (e.g. the last, partial
+block first): any rearrangement `bs` of the blocks accumulates to the same output. -/
+theorem C20_chunked_any_order (th e : κ → κ) (fl : Flavour κ) (D : Nat) (ns : List Nat) (q : List κ)
+    (ks vs : List (List κ)) (mask : Option (List Bool)) (_hk : true ∈ effMask mask ks.length)
+    (bs : List (List κ × List (List κ))) (hbs : bs.Perm (blocks ns (weights th e fl q ks mask) vs)) :
+    (List.range D).map (accumulate bs) = attend th e fl D q ks vs mask := by
+  rw [← C20_chunked th e fl D ns q ks vs mask _hk]
+  unfold attendChunked wsumChunked
+  exact List.map_congr_left (fun d _ => accumulate_perm hbs d)
+
+/-- **C20_split_merge**: the attention over the whole sequence is the MIXTURE of the attentions over its
+consecutive blocks: block `B` enters with the share `Σ_{t ∈ B} a_t` of the whole-sequence weights, blocks
+without a kept position are left out (`mergeBlocks`).  Every chunking `ns`, every coordinate.  (What the
+harness checks on the implementation as `C20.split`; the nested form of "convex combination".) -/
+theorem C20_split_merge [LinearOrder κ] [IsStrictOrderedRing κ] (th e : κ → κ) (he : ∀ x, 0 < e x)
+    (fl : Flavour κ) (D : Nat) (ns : List Nat) (q : List κ) (ks vs : List (List κ))
+    (mask : Option (List Bool)) (_hk : true ∈ effMask mask ks.length) (d : Nat) (hd : d < D) :
+    mergeBlocks th e fl D q d ns (weights th e fl q ks mask) ks vs (effMask mask ks.length) =
+      (attend th e fl D q ks vs mask).getD d 0 := by
+  have hw : weights th e fl q ks mask = weights th e fl q ks (some (effMask mask ks.length)) := rfl
+  rw [attend_getD_wsum th e fl D q ks vs mask d hd, hw, weights_some,
+    mergeBlocks_eq th e he fl D q d hd _ ns ks vs, wsumCoord_map_div]
+
+end Blocks
+
+/-- Leaving out a block that carries weight is NOT harmless (the seeded change C20-e2 drops the last block
+when the length is a multiple of the block size): `T = 4`, blocks of 2, all-ones values — the accumulated
+"weights" no longer sum to one. -/
+theorem C20_chunked_drop_block_counterexample :
+    accumulate (blocks [2] (weights id eQ (.dot 1) [1] [[1], [2], [0], [1]] none)
+        [[1], [1], [1], [1]]).dropLast 0 = 7 / 10 ∧
+    (attend id eQ (.dot 1) 1 [1] [[1], [2], [0], [1]] [[1], [1], [1], [1]] none).getD 0 0 = 1 := by
+  decide +kernel
+
 /-! ## Non-vacuity: the hypotheses are satisfiable on concrete, non-trivial inputs -/
 section Examples
 
@@ -930,6 +978,24 @@ example := C20_broadcast_explicit (κ := Rat) (attend id eQ (.dot 1)) id 2 4 non
   ⟨[5, 1, 2], fun idx => (idx.sum : Rat)⟩ ⟨[1, 7, 3, 4], fun idx => (idx.sum : Rat) / 2⟩
   ⟨[5, 7, 1, 6], fun idx => (idx.getLastD 0 : Rat)⟩ (some ⟨[7, 3], fun idx => idx.sum % 2 == 0⟩) [5, 7, 3, 6]
   (by decide) (by intro mt h; cases h; decide)
+
+-- blocks: T = 5 cut into blocks of lengths 2, 0, 2 and the remainder 1; third position masked
+example := C20_chunked id eQ (.dot 1) 1 [2, 0, 2] [1] [[1], [2], [7], [0], [3]] [[1], [5], [9], [2], [4]]
+  (some [true, true, false, true, true]) (by decide)
+example : attendChunked id eQ (.dot 1) 1 [2, 0, 2] [1] [[1], [2], [7], [0], [3]] [[1], [5], [9], [2], [4]]
+    (some [true, true, false, true, true]) = [23 / 6] := by decide +kernel
+-- the same blocks visited last-first
+example := C20_chunked_any_order id eQ (.dot 1) 1 [2] [1] [[1], [2], [7]] [[1], [5], [9]]
+  (some [true, true, false]) (by decide)
+  ((blocks [2] (weights id eQ (.dot 1) [1] [[1], [2], [7]] (some [true, true, false])) [[1], [5], [9]]).reverse)
+  (List.reverse_perm _)
+-- mixture of the blocks [0, 2), [2, 3) (nothing kept: left out), [3, 5)
+example := C20_split_merge id eQ eQ_pos (.dot 1) 1 [2, 1] [1] [[1], [2], [7], [0], [3]] [[1], [5], [9], [2], [4]]
+  (some [true, true, false, true, true]) (by decide) 0 (by decide)
+example : mergeBlocks id eQ (.dot 1) 1 [1] 0 [2, 1]
+    (weights id eQ (.dot 1) [1] [[1], [2], [7], [0], [3]] (some [true, true, false, true, true]))
+    [[1], [2], [7], [0], [3]] [[1], [5], [9], [2], [4]] [true, true, false, true, true] = 23 / 6 := by
+  decide +kernel
 
 end Examples
 
